@@ -23,6 +23,7 @@ import json
 import os
 import struct
 import sys
+import time
 
 from common import Check, CoqError, VERIF, coq_bytes, coq_list, coq_N, coq_nat, mkdata
 
@@ -420,6 +421,15 @@ def c_items(items):
     return coq_list(['(mkExt %d %d %s)' % (fl, ty, coq_bytes(val)) for (fl, ty, val) in items], 'extitem')
 
 
+def c_len(num):
+    ''' A nat term (large values are not written as nat literals). '''
+    return coq_nat(num) if num <= 1000 else '(N.to_nat %d)' % num
+
+
+def c_lens(lens):
+    return coq_list([c_len(n) for n in lens], 'nat')
+
+
 def c_parts(parts):
     ''' A stream given as a list of octet strings / Gen objects. '''
     terms = [c_data(part) for part in parts if isinstance(part, Gen) or len(part)]
@@ -617,7 +627,7 @@ def gen_items(rng, bound, count=None):
 def gen_data(rng, big):
     sizes = [0, 0, 1, 2, 17, 255, 256, 1000]
     if big:
-        sizes = [4096, 65535, 65536, 70001]
+        sizes = [4096, 10000, 16384, 20001]
     size = rng.choice(sizes)
     if size <= 17:
         return bytes(rng.randrange(256) for _ in range(size))
@@ -683,7 +693,7 @@ def short_streams(chk):
     if limit >= 14:
         add([GOOD_CONTACT, ('ka',), ('ka',), ('term', 0, 3), ('rej', 4, 1)])
         add([GOOD_CONTACT, ('ka',), ('seg', 0, 1, b'', b'')], trunc=12)
-    want = 22 if chk.quick() else 60
+    want = 16 if chk.quick() else 60
     tries = 0
     while len(streams) < want and tries < 2000:
         tries += 1
@@ -827,7 +837,24 @@ def item_bound(frame):
     return XFER_BOUND if frame[0] == 'seg' else SESS_BOUND
 
 
-def run_codec(chk, run, corpus):
+class ModelJobs(object):
+    """ Coq evaluations run in background threads (each one is a set of coqc
+    processes) while the implementation side runs in this process. """
+
+    def __init__(self, chk):
+        from concurrent.futures import ThreadPoolExecutor
+        self.chk = chk
+        self.pool = ThreadPoolExecutor(max_workers=12)
+
+    def submit(self, name, terms, func, chunk=250):
+        return self.pool.submit(self.chk.coq_eval, name, ['Model.TcpclMsg'], list(terms), func, chunk, 900, PRELUDE)
+
+
+def frame_json(frame):
+    return [frame[0]] + [data_json(f) if isinstance(f, (bytes, Gen)) else f for f in frame[1:]]
+
+
+def run_codec(chk, run, jobs, corpus, sizes):
     rng = chk.rng
     cases = []   # (frame, items, tail)
     for ent in corpus:
@@ -852,51 +879,50 @@ def run_codec(chk, run, corpus):
 
     small = []
     big = []
-    impls = []
     for (pos, (frame, items, tail)) in enumerate(cases):
-        impl = run.codec_impl(frame, items, tail)
-        impls.append(impl)
         is_big = frame[0] == 'seg' and isinstance(frame[4], Gen) and frame[4].length > 300
         if is_big:
-            enc = impl.get('enc') or spec_encode(frame)
+            enc = spec_encode(frame)
             head = enc[:len(enc) - frame[4].length]
             big.append((pos, '(%s, ((%s ++ %s), %s))' % (c_frame_msg(frame), coq_bytes(head), c_data(frame[4]), coq_bytes(tail))))
         else:
             small.append((pos, '(%s, %s)' % (c_frame_msg(frame), coq_bytes(tail))))
     item_cases = [(pos, frame, items) for (pos, (frame, items, _t)) in enumerate(cases) if frame[0] in ('seg', 'init')]
-    res_small = chk.coq_eval('codec', ['Model.TcpclMsg'], [term for (_p, term) in small], 'codec_small', prelude=PRELUDE)
-    res_big = chk.coq_eval('codecbig', ['Model.TcpclMsg'], [term for (_p, term) in big], 'codec_big', prelude=PRELUDE)
-    res_xf = chk.coq_eval('extsx', ['Model.TcpclMsg'], [coq_bytes(f[3]) for (_p, f, _i) in item_cases if f[0] == 'seg'], 'exts_xfer', prelude=PRELUDE)
-    res_se = chk.coq_eval('extss', ['Model.TcpclMsg'], [coq_bytes(f[5]) for (_p, f, _i) in item_cases if f[0] == 'init'], 'exts_sess', prelude=PRELUDE)
-    res_enc = chk.coq_eval('extsenc', ['Model.TcpclMsg'], [c_items(i) for (_p, _f, i) in item_cases], 'enc_items', prelude=PRELUDE)
-    model = {}
-    for ((pos, _t), val) in zip(small, res_small):
-        model[pos] = ('small', val)
-    for ((pos, _t), val) in zip(big, res_big):
-        model[pos] = ('big', val)
-    model_items = {}
-    it_xf = iter(res_xf)
-    it_se = iter(res_se)
-    for ((pos, frame, items), enc) in zip(item_cases, res_enc):
-        model_items[pos] = (next(it_xf) if frame[0] == 'seg' else next(it_se), enc)
-
+    fut_small = jobs.submit('codec', [term for (_p, term) in small], 'codec_small')
+    fut_big = jobs.submit('codecbig', [term for (_p, term) in big], 'codec_big', chunk=4)
+    fut_xf = jobs.submit('extsx', [coq_bytes(f[3]) for (_p, f, _i) in item_cases if f[0] == 'seg'], 'exts_xfer')
+    fut_se = jobs.submit('extss', [coq_bytes(f[5]) for (_p, f, _i) in item_cases if f[0] == 'init'], 'exts_sess')
+    fut_enc = jobs.submit('extsenc', [c_items(i) for (_p, _f, i) in item_cases], 'enc_items')
+    impls = [run.codec_impl(frame, items, tail) for (frame, items, tail) in cases]
     for (pos, (frame, items, tail)) in enumerate(cases):
         impl = impls[pos]
         name = KIND_NAMES_OF([frame], 0)
-        nontrivial = frame[0] != 'ka'
-        chk.case(('codec', spec_encode(frame)[:64], len(spec_encode(frame)), tail), nontrivial=nontrivial,
-                 sample=dict(suite='codec', frame=[frame[0]] + [data_json(f) if isinstance(f, (bytes, Gen)) else f for f in frame[1:]],
-                             items=[[fl, ty, val.hex()] for (fl, ty, val) in items], encoding=(impl.get('enc') or b'').hex()[:96]) if pos % 97 == 0 else None)
+        chk.case(('codec', spec_encode(frame)[:64], len(spec_encode(frame)), tail), nontrivial=(frame[0] != 'ka'),
+                 sample=dict(suite='codec', frame=frame_json(frame), items=[[fl, ty, val.hex()] for (fl, ty, val) in items],
+                             encoding=(impl.get('enc') or b'').hex()[:96]) if pos % 97 == 0 else None)
         chk.count('codec_msg_type', name)
         if frame[0] in ('seg', 'init'):
             chk.count('codec_ext_items', len(items))
         if frame[0] == 'seg':
             size = len(octets_of(frame[4]))
-            chk.count('codec_data_octets', '0' if size == 0 else ('1-255' if size < 256 else ('256-65535' if size < 65536 else '>=65536')))
-        replay = dict(suite='codec', frame=[frame[0]] + [data_json(f) if isinstance(f, (bytes, Gen)) else f for f in frame[1:]],
-                      items=[[fl, ty, val.hex()] for (fl, ty, val) in items], tail=tail.hex())
+            chk.count('codec_data_octets', '0' if size == 0 else ('1-255' if size < 256 else ('256-4095' if size < 4096 else '>=4096')))
+        replay = dict(suite='codec', frame=frame_json(frame), items=[[fl, ty, val.hex()] for (fl, ty, val) in items], tail=tail.hex())
         run.codec_oracle(frame, items, tail, impl, replay)
-        # model vs implementation
+    sizes['codec'] = len(cases)
+    yield
+    model = {}
+    for ((pos, _t), val) in zip(small, fut_small.result()):
+        model[pos] = ('small', val)
+    for ((pos, _t), val) in zip(big, fut_big.result()):
+        model[pos] = ('big', val)
+    model_items = {}
+    it_xf = iter(fut_xf.result())
+    it_se = iter(fut_se.result())
+    for ((pos, frame, items), enc) in zip(item_cases, fut_enc.result()):
+        model_items[pos] = (next(it_xf) if frame[0] == 'seg' else next(it_se), enc)
+    for (pos, (frame, items, tail)) in enumerate(cases):
+        impl = impls[pos]
+        name = KIND_NAMES_OF([frame], 0)
         (form, val) = model[pos]
         if impl['exc']:
             run.note('codec', '%s: implementation raised %s' % (name, impl['exc']))
@@ -910,9 +936,10 @@ def run_codec(chk, run, corpus):
                     name, str(frame)[:80], wfb, bytes(enc).hex()[:60], str(got_dec)[:80], impl['enc'].hex()[:60], str(want_dec)[:80]))
         else:
             (wfb, (enc_ok, dec_ok)) = val
-            impl_ok = impl['dec'] is not None and impl['dec'][0] == tuple(octets_of(f) if isinstance(f, Gen) else f for f in frame)
+            impl_ok = (impl['enc'] == spec_encode(frame) and impl['dec'] is not None
+                       and impl['dec'][0] == tuple(octets_of(f) if isinstance(f, Gen) else f for f in frame))
             if not (wfb and enc_ok and dec_ok and impl_ok):
-                run.note('codec', '%s (large data %d): model wf=%s enc_ok=%s dec_ok=%s impl_dec_ok=%s' % (
+                run.note('codec', '%s (large data %d): model wf=%s enc_ok=%s dec_ok=%s impl_ok=%s' % (
                     name, frame[4].length, wfb, enc_ok, dec_ok, impl_ok))
         if pos in model_items:
             ((spec_l, view), enc_items) = model_items[pos]
@@ -924,26 +951,40 @@ def run_codec(chk, run, corpus):
                 run.note('codec', '%s items %s: model encode_exts=%s spec=%s view=%s / impl view=%s' % (
                     name, str(items)[:80], bytes(enc_items).hex()[:40], str(got_spec)[:80], str(got_view)[:80], str(impl.get('view'))[:80]))
     chk.obligation('correspondence:codec', not run.mismatch.get('codec'), '; '.join(run.mismatch.get('codec', [])[:3]))
-    return len(cases)
 
 
-def run_framing_short(chk, run):
-    ''' Every cut of every short stream on the implementation; the model on the
-    uncut stream and on a sample of the cuts. '''
+def _cum(lens):
+    out = []
+    pos = 0
+    for size in lens:
+        pos += size
+        out.append(pos)
+    return out
+
+
+def run_framing_short(chk, run, jobs, sizes):
+    """ Every cut of every short stream on the implementation; the model on the
+    uncut stream and on a sample of the cuts. """
     rng = chk.rng
     streams = short_streams(chk)
-    model_cases = []   # (stream index, lens)
-    budget = 700 if chk.quick() else 6000
+    model_cases = []   # (stream index, mask, lens)
+    budget = 600 if chk.quick() else 6000
     per_stream = max(8, budget // max(1, len(streams)))
-    all_obs = {}
     for (sidx, (tag, stream)) in enumerate(streams):
         size = len(stream)
         total = 1 << (size - 1)
         sampled = set([0, total - 1])
         while len(sampled) < min(per_stream, total):
             sampled.add(rng.randrange(total))
+        for mask in sorted(sampled):
+            model_cases.append((sidx, mask, cut_lens(mask, size)))
+    fut = jobs.submit('short', ['(%s, %s)' % (coq_bytes(streams[sidx][1]), c_lens(lens)) for (sidx, _m, lens) in model_cases],
+                      'rx_brief', chunk=80)
+    all_obs = {}
+    for (sidx, (tag, stream)) in enumerate(streams):
+        size = len(stream)
         (_f, ends, _s) = spec_stream(stream)
-        for mask in range(total):
+        for mask in range(1 << (size - 1)):
             lens = cut_lens(mask, size)
             replay = dict(suite='framing', stream=stream.hex(), lens=lens, mode='wrap')
             (obs, _bad) = run.framing_case(stream, lens, 'wrap', replay)
@@ -952,16 +993,15 @@ def run_framing_short(chk, run):
                      sample=dict(suite='framing', stream=stream.hex(), reads=lens, frames_acted_on=[o.hex() for (o, _f2, _v) in obs.frames],
                                  kept=obs.occupancy) if (mask == 0b1011 and sidx < 3) else None)
             all_obs[(sidx, mask)] = canon_impl(obs) + (obs.tail, obs.raised)
-            if mask in sampled:
-                model_cases.append((sidx, mask, lens))
         chk.count('short_stream_octets', size)
         chk.count('short_stream_kind', tag)
-    chk.count('short_cuts_total', sum(1 << (len(s) - 1) for (_t, s) in streams))
-    res = chk.coq_eval('short', ['Model.TcpclMsg'],
-                       ['(%s, %s)' % (coq_bytes(streams[sidx][1]), coq_list([coq_nat(n) for n in lens], 'nat')) for (sidx, _m, lens) in model_cases],
-                       'rx_brief', prelude=PRELUDE)
+    chk.coverage['short_streams'] = len(streams)
+    chk.coverage['short_cuts_all'] = len(all_obs)
+    sizes['framing_short_all_cuts'] = len(all_obs)
+    sizes['framing_short_model_evaluated'] = len(model_cases)
+    yield
     uncut = {}
-    for ((sidx, mask, lens), val) in zip(model_cases, res):
+    for ((sidx, mask, lens), val) in zip(model_cases, fut.result()):
         (mtrace, mframes, mtail) = canon_model(val)
         (itrace, iframes, itail, raised) = all_obs[(sidx, mask)]
         if mask == 0:
@@ -976,20 +1016,10 @@ def run_framing_short(chk, run):
             run.note('framing-short', 'stream %s cut mask %d: final state differs from the model on the uncut stream (impl %s raised=%s)' % (
                 streams[sidx][1].hex(), mask, str(iframes)[:80], raised))
     chk.obligation('correspondence:framing-short', not run.mismatch.get('framing-short'), '; '.join(run.mismatch.get('framing-short', [])[:3]))
-    return len(all_obs)
-
-
-def _cum(lens):
-    out = []
-    pos = 0
-    for size in lens:
-        pos += size
-        out.append(pos)
-    return out
 
 
 def stream_parts(frames):
-    ''' Octets of a frame list as parts (Gen data kept symbolic) and flat. '''
+    """ Octets of a frame list as parts (Gen data kept symbolic) and flat. """
     parts = []
     for (frame, _items) in frames:
         if frame[0] == 'seg' and isinstance(frame[4], Gen):
@@ -1006,45 +1036,52 @@ def parts_json(parts):
     return [data_json(p) for p in parts]
 
 
-def run_framing_long(chk, run):
+def compare_streams(run, suite, jobs_list, results):
+    for ((parts, flat, lens, obs), val) in zip(jobs_list, results):
+        (mtrace, mframes, mtail) = canon_model(val)
+        (itrace, iframes) = canon_impl(obs)
+        if obs.raised or mtrace != itrace or mframes != iframes or (obs.tail is not None and brief(obs.tail) != mtail):
+            run.note(suite, 'stream of %d octets cut %s: model %s %s / impl %s %s raised=%s' % (
+                len(flat), lens[:12], str(mtrace)[:100], str(mframes)[:60], str(itrace)[:100], str(iframes)[:60], obs.raised))
+
+
+def run_framing_long(chk, run, jobs, sizes):
     specs = long_streams(chk)
-    jobs = []
+    plan = []
     for (tag, frames) in specs:
         (parts, flat) = stream_parts(frames)
         (size, cuts) = directed_cuts(chk, frames)
         assert size == len(flat)
-        (_f, ends, _s) = spec_stream(flat)
         for (ctag, lens) in cuts:
-            replay = dict(suite='framing', parts=parts_json(parts), lens=lens, mode='wrap')
-            (obs, _bad) = run.framing_case(flat, lens, 'wrap', replay)
-            splits = any((pos not in ends) for pos in _cum(lens)[:-1])
-            chk.case(('long', flat[:64], len(flat), tuple(lens[:64]), len(lens)), nontrivial=splits,
-                     sample=dict(suite='framing-long', octets=len(flat), frames=[KIND_NAMES_OF([f], 0) for (f, _i) in frames], cut=ctag,
-                                 reads=lens[:16], frames_acted_on=len(obs.frames), kept=obs.occupancy) if ctag == 'field-boundaries-1' and len(jobs) < 200 else None)
-            chk.count('long_cut_kind', ctag)
-            jobs.append((parts, flat, lens, obs))
+            plan.append((tag, frames, parts, flat, ctag, lens))
+    fut = jobs.submit('long', ['(%s, %s)' % (c_parts(parts), c_lens(lens)) for (_t, _f, parts, _fl, _c, lens) in plan], 'rx_brief', chunk=24)
+    done = []
+    for (tag, frames, parts, flat, ctag, lens) in plan:
+        (_f, ends, _s) = spec_stream(flat)
+        replay = dict(suite='framing', parts=parts_json(parts), lens=lens, mode='wrap')
+        (obs, _bad) = run.framing_case(flat, lens, 'wrap', replay)
+        splits = any((pos not in ends) for pos in _cum(lens)[:-1])
+        chk.case(('long', flat[:64], len(flat), tuple(lens[:64]), len(lens)), nontrivial=splits,
+                 sample=dict(suite='framing-long', octets=len(flat), frames=[KIND_NAMES_OF([f], 0) for (f, _i) in frames], cut=ctag,
+                             reads=lens[:16], frames_acted_on=len(obs.frames), kept=obs.occupancy) if ctag == 'field-boundaries-1' and len(done) < 200 else None)
+        chk.count('long_cut_kind', ctag)
+        done.append((parts, flat, lens, obs))
+    for (tag, frames) in specs:
         chk.count('long_stream_kind', tag)
         for (frame, items) in frames:
             chk.count('long_msg_type', KIND_NAMES_OF([frame], 0))
-    res = chk.coq_eval('long', ['Model.TcpclMsg'],
-                       ['(%s, %s)' % (c_parts(parts), coq_list([coq_nat(n) for n in lens], 'nat')) for (parts, _f, lens, _o) in jobs],
-                       'rx_brief', chunk=40, prelude=PRELUDE)
-    for ((parts, flat, lens, obs), val) in zip(jobs, res):
-        (mtrace, mframes, mtail) = canon_model(val)
-        (itrace, iframes) = canon_impl(obs)
-        if obs.raised or mtrace != itrace or mframes != iframes or (obs.tail is not None and brief(obs.tail) != mtail):
-            run.note('framing-long', 'stream of %d octets cut %s: model %s / impl %s raised=%s' % (
-                len(flat), lens[:12], str(mtrace)[:100], str(itrace)[:100], obs.raised))
+    sizes['framing_long_directed'] = len(done)
+    yield
+    compare_streams(run, 'framing-long', done, fut.result())
     chk.obligation('correspondence:framing-long', not run.mismatch.get('framing-long'), '; '.join(run.mismatch.get('framing-long', [])[:3]))
-    return len(jobs)
 
 
-def run_framing_real(chk, run):
-    ''' Protocol-plausible streams through the REAL recv_message (passive
+def run_framing_real(chk, run, jobs, sizes):
+    """ Protocol-plausible streams through the REAL recv_message (passive
     endpoint: contact header, SESS_INIT, a segmented transfer, KEEPALIVE,
-    SESS_TERM), observed by a recording wrapper that delegates. '''
+    SESS_TERM), observed by a recording wrapper that delegates. """
     rng = chk.rng
-    jobs = []
+    plan = []
     for idx in range(4 if chk.quick() else 16):
         xid = rng.choice([0, 1, 7, 2 ** 32])
         data = [bytes(rng.randrange(256) for _ in range(rng.choice([0, 1, 9, 40]))) for _ in range(3)]
@@ -1061,39 +1098,36 @@ def run_framing_real(chk, run):
                   (('term', 0, rng.choice([0, 1, 3])), [])]
         (parts, flat) = stream_parts(frames)
         (size, cuts) = directed_cuts(chk, frames)
-        (_f, ends, _s) = spec_stream(flat)
         for (ctag, lens) in cuts:
             if ctag.startswith('two-reads') and rng.random() < 0.5:
                 continue
-            replay = dict(suite='framing', parts=parts_json(parts), lens=lens, mode='real')
-            (obs, _bad) = run.framing_case(flat, lens, 'real', replay)
-            chk.case(('real', flat, tuple(lens)), nontrivial=any((pos not in ends) for pos in _cum(lens)[:-1]))
-            chk.count('real_handler_cut_kind', ctag)
-            jobs.append((parts, flat, lens, obs))
-    res = chk.coq_eval('real', ['Model.TcpclMsg'],
-                       ['(%s, %s)' % (c_parts(parts), coq_list([coq_nat(n) for n in lens], 'nat')) for (parts, _f, lens, _o) in jobs],
-                       'rx_brief', chunk=60, prelude=PRELUDE)
-    for ((parts, flat, lens, obs), val) in zip(jobs, res):
-        (mtrace, mframes, mtail) = canon_model(val)
-        (itrace, iframes) = canon_impl(obs)
-        if obs.raised or mtrace != itrace or mframes != iframes or (obs.tail is not None and brief(obs.tail) != mtail):
-            run.note('framing-real', 'stream of %d octets cut %s: model %s / impl %s raised=%s' % (
-                len(flat), lens[:12], str(mtrace)[:100], str(itrace)[:100], obs.raised))
+            plan.append((parts, flat, ctag, lens))
+    fut = jobs.submit('real', ['(%s, %s)' % (c_parts(parts), c_lens(lens)) for (parts, _f, _c, lens) in plan], 'rx_brief', chunk=24)
+    done = []
+    for (parts, flat, ctag, lens) in plan:
+        (_f, ends, _s) = spec_stream(flat)
+        replay = dict(suite='framing', parts=parts_json(parts), lens=lens, mode='real')
+        (obs, _bad) = run.framing_case(flat, lens, 'real', replay)
+        chk.case(('real', flat, tuple(lens)), nontrivial=any((pos not in ends) for pos in _cum(lens)[:-1]))
+        chk.count('real_handler_cut_kind', ctag)
+        done.append((parts, flat, lens, obs))
+    sizes['framing_real_handler'] = len(done)
+    yield
+    compare_streams(run, 'framing-real', done, fut.result())
     chk.obligation('correspondence:framing-real-handler', not run.mismatch.get('framing-real'), '; '.join(run.mismatch.get('framing-real', [])[:3]))
-    return len(jobs)
 
 
 def chain_region(count, typ=1, val=b'12345678'):
-    ''' ``count`` bound-type items each of whose length field covers all that follows. '''
+    """ ``count`` bound-type items each of whose length field covers all that follows. """
     item = b''
     for _ in range(count):
         item = struct.pack('!BHH', 0, typ, len(val) + len(item)) + val + item
     return item
 
 
-def run_malformed(chk, run):
-    ''' Outside the property's quantifier (C17 owns unknown types): only model =
-    implementation is checked, on the probe and on the receive loop. '''
+def run_malformed(chk, run, jobs, sizes):
+    """ Outside the property's quantifier (C17 owns unknown types): only model =
+    implementation is checked, on the probe and on the receive loop. """
     rng = chk.rng
 
     def seg(region, data=b'xy', flags=3):
@@ -1134,24 +1168,7 @@ def run_malformed(chk, run):
             probes.append(('bit-flip', base[:pos] + bytes([base[pos] ^ (1 << rng.randrange(8))]) + base[pos + 1:]))
         else:
             probes.append(('random-octets', bytes(rng.randrange(256) for _ in range(rng.randrange(1, 40)))))
-    res = chk.coq_eval('malprobe', ['Model.TcpclMsg'], [coq_bytes(buf) for (_t, buf) in probes], 'probe_msg', chunk=40, prelude=PRELUDE)
-    count = 0
-    for ((tag, buf), val) in zip(probes, res):
-        count += 1
-        chk.count('malformed_probe', tag)
-        try:
-            probe = real_probe(buf)
-            impl = [] if probe is None else [([brief(f) for f in render(real_fields(probe[0])[0])], len(buf) - len(probe[1]))]
-            if probe is not None and probe[1] != buf[:len(probe[1])]:
-                impl = ['re-encoding differs from the consumed octets']
-        except Exception as err:
-            impl = ['raised %s' % err.__class__.__name__]
-        got = [([list(f) for f in ent[0]], ent[1]) for ent in val]
-        # model gives the number of octets left, implementation the number consumed
-        got = [(flds, len(buf) - left) for (flds, left) in got]
-        if got != impl:
-            run.note('malformed', '%s %s: model %s / impl %s' % (tag, buf.hex()[:60], str(got)[:100], str(impl)[:100]))
-    # the receive loop on streams that stall
+    fut_probe = jobs.submit('malprobe', [coq_bytes(buf) for (_t, buf) in probes], 'probe_msg', chunk=12)
     streams = []
     hdr = spec_encode(GOOD_CONTACT)
     streams.append(('stall-unknown-type', hdr + b'\x04' + b'\x09\x05\x00\x03'))
@@ -1160,29 +1177,44 @@ def run_malformed(chk, run):
     streams.append(('bad-version', b'dtn!\x03\x00' + b'dtn!\x04\x01' + b'\x05\x00\x00'))
     streams.append(('garbage-region', hdr + seg(b'\x00\x00\x00') + b'\x04'))
     streams.append(('chained-items-101', hdr + b'\x04' + seg(chain_region(101)) + b'\x04'))
-    jobs = []
+    plan = []
     for (tag, stream) in streams:
         cut_sets = [[len(stream)], [1] * len(stream), lens_from_points([5, 6, 7, 9], len(stream))]
         if len(stream) > 60:
             cut_sets = [[len(stream)], lens_from_points([3, 6, 7, 20, len(stream) - 1], len(stream))]
         for lens in cut_sets:
-            replay = dict(suite='framing', stream=stream.hex(), lens=lens, mode='wrap')
-            (obs, _bad) = run.framing_case(stream, lens, 'wrap', replay, verdict=False)
-            jobs.append((tag, stream, lens, obs))
-            chk.count('malformed_stream', tag)
-            count += 1
-    res = chk.coq_eval('malstream', ['Model.TcpclMsg'],
-                       ['(%s, %s)' % (coq_bytes(stream), coq_list([coq_nat(n) for n in lens], 'nat')) for (_t, stream, lens, _o) in jobs],
-                       'rx_brief', chunk=6, prelude=PRELUDE)
-    for ((tag, stream, lens, obs), val) in zip(jobs, res):
-        (mtrace, mframes, mtail) = canon_model(val)
-        (itrace, iframes) = canon_impl(obs)
-        if obs.raised or mtrace != itrace or mframes != iframes or (obs.tail is not None and brief(obs.tail) != mtail):
-            run.note('malformed', '%s stream cut %s: model %s %s / impl %s %s raised=%s' % (
-                tag, lens[:10], mtrace[:8], str(mframes)[:60], itrace[:8], str(iframes)[:60], obs.raised))
-    chk.obligation('correspondence:malformed (no verdict)', not run.mismatch.get('malformed'), '; '.join(run.mismatch.get('malformed', [])[:3]))
+            plan.append((tag, stream, lens))
+    fut_stream = jobs.submit('malstream', ['(%s, %s)' % (coq_bytes(stream), c_lens(lens)) for (_t, stream, lens) in plan], 'rx_brief', chunk=4)
+    count = 0
+    impl_probe = []
+    for (tag, buf) in probes:
+        count += 1
+        chk.count('malformed_probe', tag)
+        try:
+            probe = real_probe(buf)
+            impl = [] if probe is None else [([brief(f) for f in render(real_fields(probe[0])[0])], len(probe[1]))]
+            if probe is not None and probe[1] != buf[:len(probe[1])]:
+                impl = ['re-encoding differs from the consumed octets']
+        except Exception as err:
+            impl = ['raised %s' % err.__class__.__name__]
+        impl_probe.append(impl)
+    done = []
+    for (tag, stream, lens) in plan:
+        replay = dict(suite='framing', stream=stream.hex(), lens=lens, mode='wrap')
+        (obs, _bad) = run.framing_case(stream, lens, 'wrap', replay, verdict=False)
+        done.append(([stream], stream, lens, obs))
+        chk.count('malformed_stream', tag)
+        count += 1
+    sizes['malformed'] = count
     chk.coverage['malformed_cases_outside_verdict'] = count
-    return count
+    yield
+    for ((tag, buf), impl, val) in zip(probes, impl_probe, fut_probe.result()):
+        # model gives the number of octets left, implementation the number consumed
+        got = [([list(f) for f in ent[0]], len(buf) - ent[1]) for ent in val]
+        if got != impl:
+            run.note('malformed', '%s %s: model %s / impl %s' % (tag, buf.hex()[:60], str(got)[:100], str(impl)[:100]))
+    compare_streams(run, 'malformed', done, fut_stream.result())
+    chk.obligation('correspondence:malformed (no verdict)', not run.mismatch.get('malformed'), '; '.join(run.mismatch.get('malformed', [])[:3]))
 
 
 def load_corpus():
@@ -1197,7 +1229,7 @@ def load_corpus():
 def frame_unjson(lst):
     kind = lst[0]
     vals = []
-    for (pos, val) in enumerate(lst[1:]):
+    for val in lst[1:]:
         if isinstance(val, str) or (isinstance(val, list) and val and val[0] == 'gd'):
             vals.append(data_unjson(val))
         else:
@@ -1207,6 +1239,7 @@ def frame_unjson(lst):
 
 def run_all(chk):
     run = Runner(chk)
+    jobs = ModelJobs(chk)
     corpus_codec = []
     corpus_framing = []
     for (name, obj) in load_corpus():
@@ -1215,17 +1248,37 @@ def run_all(chk):
             corpus_codec.append((frame_unjson(obj['frame']), [(it[0], it[1], bytes.fromhex(it[2])) for it in obj['items']], bytes.fromhex(obj.get('tail', ''))))
         elif obj.get('suite') == 'framing':
             corpus_framing.append(obj)
+    laps = chk.coverage.setdefault('phase_seconds', {})
+    last = [time.time()]
+
+    def lap(name):
+        laps[name] = round(time.time() - last[0], 1)
+        last[0] = time.time()
+
     for obj in corpus_framing:
         replay_framing(chk, run, obj)
-    ncodec = run_codec(chk, run, corpus_codec)
-    nshort = run_framing_short(chk, run)
-    nlong = run_framing_long(chk, run)
-    nreal = run_framing_real(chk, run)
-    nmal = run_malformed(chk, run)
-    chk.coverage['suite_sizes'] = dict(codec=ncodec, framing_short_all_cuts=nshort, framing_long_directed=nlong,
-                                       framing_real_handler=nreal, malformed=nmal)
+    sizes = {}
+    # the long-running model evaluations are submitted first; they run in the
+    # background while the implementation side of every suite runs here
+    stages = [('framing_long', run_framing_long(chk, run, jobs, sizes)),
+              ('framing_real', run_framing_real(chk, run, jobs, sizes)),
+              ('malformed', run_malformed(chk, run, jobs, sizes)),
+              ('codec', run_codec(chk, run, jobs, corpus_codec, sizes)),
+              ('framing_short', run_framing_short(chk, run, jobs, sizes))]
+    try:
+        for (name, gen) in stages:
+            next(gen)
+            lap('impl:' + name)
+        for (name, gen) in stages:
+            for _ in gen:
+                pass
+            lap('model-wait+compare:' + name)
+    finally:
+        jobs.pool.shutdown(wait=True)
+    chk.coverage['suite_sizes'] = sizes
     chk.coverage['exhaustive'] = False
     chk.coverage['exhaustive_note'] = 'every one of the 2^(n-1) cuts of each short stream is run on the implementation'
+    print('# phases (s): %s' % json.dumps(laps, sort_keys=True))
     return run
 
 
@@ -1311,6 +1364,7 @@ def main():
         replay(chk, chk.args.replay)
         return
     chk.coq_props()
+    chk.coverage['phase_seconds'] = dict(coq_props=round(time.time() - chk.start, 1))
     try:
         run = run_all(chk)
     except CoqError as err:
